@@ -147,19 +147,17 @@ OPL_PRELUDE = '''
 #define NPOS ((size_t)-1)
 typedef struct lstr { size_t size; } lstr;   /* std::string: only the length is kept */
 typedef int Worker;
-/* ghost accounting of the byte stream */
-size_t ghost_received;   /* bytes handed over by get_input() so far */
-size_t ghost_parsed;     /* bytes that were part of a line passed to parse_line() */
-size_t ghost_sep;        /* line separators consumed */
+/* ghost accounting of the byte stream: bytes received from get_input() that have neither been handed to parse_line() as part of a line nor been consumed as a line separator */
+size_t ghost_pending_bytes;
 size_t ghost_lines;      /* calls of parse_line() */
 _Bool verif_input_done;
 /* the queue protocol (see vstr_epoch.h): chunks of any length >= 1, then the end marker (length 0, input_done() true from then on) */
-size_t W_get_input(Worker* w) __CPROVER_requires(verif_input_done == 0 || verif_input_done == 1) __CPROVER_assigns(verif_input_done, ghost_received)
-  __CPROVER_ensures((__CPROVER_return_value == 0) == verif_input_done && __CPROVER_return_value <= (1u << 24) && ghost_received == __CPROVER_old(ghost_received) + __CPROVER_return_value && (!__CPROVER_old(verif_input_done) || verif_input_done));
+size_t W_get_input(Worker* w) __CPROVER_requires(verif_input_done == 0 || verif_input_done == 1) __CPROVER_assigns(verif_input_done, ghost_pending_bytes)
+  __CPROVER_ensures((__CPROVER_return_value == 0) == verif_input_done && __CPROVER_return_value <= (1u << 24) && ghost_pending_bytes == __CPROVER_old(ghost_pending_bytes) + __CPROVER_return_value && (!__CPROVER_old(verif_input_done) || verif_input_done));
 /* std::string::find_first_of("\\n\\r", from): npos, or the first separator at or after from */
 size_t verif_find_nl(size_t size, size_t from) __CPROVER_requires(1) __CPROVER_assigns() __CPROVER_ensures(__CPROVER_return_value == NPOS || (__CPROVER_return_value >= from && __CPROVER_return_value < size));
-void W_parse_line(Worker* w, size_t len) __CPROVER_requires(len >= 1 && verif_exc == 0) __CPROVER_assigns(ghost_parsed, ghost_lines, verif_exc)
-  __CPROVER_ensures(ghost_parsed == __CPROVER_old(ghost_parsed) + len && ghost_lines == __CPROVER_old(ghost_lines) + 1 && (verif_exc == 0 || verif_exc == EXC_opl_error));
+void W_parse_line(Worker* w, size_t len) __CPROVER_requires(len >= 1 && verif_exc == 0) __CPROVER_assigns(ghost_pending_bytes, ghost_lines, verif_exc)
+  __CPROVER_ensures(ghost_pending_bytes == __CPROVER_old(ghost_pending_bytes) - len && ghost_lines == __CPROVER_old(ghost_lines) + 1 && (verif_exc == 0 || verif_exc == EXC_opl_error));
 '''
 U_lbl = Unit(OPLIN, 'line_by_line', params=['Worker* worker_p'],
              pre=[(r'std::string rest;', 'lstr rest; rest.size = 0;'), (r'worker\.input_done\(\)', 'verif_input_done'),
@@ -167,38 +165,39 @@ U_lbl = Unit(OPLIN, 'line_by_line', params=['Worker* worker_p'],
                   (r'!rest\.empty\(\)', '(rest.size != 0)'), (r'input\.find_first_of\("\\n\\r", ppos\)', 'verif_find_nl(input.size, ppos)', 2), (r'input\.find_first_of\("\\n\\r"\)', 'verif_find_nl(input.size, 0)'), (r'std::string::npos', 'NPOS'),
                   (r'rest\.append\(input\);', 'rest.size += input.size;'), (r'rest\.append\(input, 0, ppos\);', '__CPROVER_assert(ppos <= input.size, "std::string::append(str, pos, n): pos within str"); rest.size += ppos;'),
                   (r'worker\.parse_line\(rest\.data\(\)\);', 'W_parse_line(worker_p, rest.size);', 2), (r'rest\.clear\(\);', 'rest.size = 0;'),
-                  (r'\+\+ppos;', '++ppos; ghost_sep += 1; /*ghost: the separator at the old ppos*/'),
+                  (r'\+\+ppos;', '++ppos; ghost_pending_bytes -= 1; /*ghost: the separator at the old ppos*/'),
                   (r'for \(auto pos = ', 'for (size_t pos = '),
-                  (r'const char\* data = &input\[ppos\];\s*input\[pos\] = \'\\0\';', '__CPROVER_assert(ppos <= pos && pos < input.size, "index into the input string"); ghost_sep += 1; /*ghost: the separator at pos*/'),
+                  (r'const char\* data = &input\[ppos\];\s*input\[pos\] = \'\\0\';', '__CPROVER_assert(ppos <= pos && pos < input.size, "index into the input string"); ghost_pending_bytes -= 1; /*ghost: the separator at pos*/'),
                   (r"if \(data\[0\] != '\\0'\) \{\s*worker\.parse_line\(data\);", 'if (pos > ppos) { /* a non-empty line (input text has no NUL bytes: assumption) */ W_parse_line(worker_p, pos - ppos);'),
                   (r'input\.size\(\)', 'input.size'),
                   (r'rest\.assign\(input, ppos, NPOS\);', '__CPROVER_assert(ppos <= input.size, "std::string::assign(str, pos, n): pos within str (out_of_range otherwise)"); rest.size = input.size - ppos;')])
-ACC = 'ghost_received == ghost_parsed + ghost_sep + rest.size'
+ACC = 'ghost_pending_bytes == rest.size'
 PIPELINES.append(Pipeline('U3_opl_line_by_line', units=[U_lbl], prelude=OPL_PRELUDE, contracts={'line_by_line': [
-    ('pre:start of the stream', 'requires', 'verif_exc == 0 && __CPROVER_is_fresh(worker_p, sizeof(*worker_p)) && ghost_received == 0 && ghost_parsed == 0 && ghost_sep == 0 && ghost_lines == 0 && verif_input_done == 0'),
+    ('pre:start of the stream', 'requires', 'verif_exc == 0 && __CPROVER_is_fresh(worker_p, sizeof(*worker_p)) && ghost_pending_bytes == 0 && ghost_lines == 0 && verif_input_done == 0'),
     ('post:the splitter stops only at the end marker of the stream or with a parse error', 'ensures', 'verif_exc != 0 || verif_input_done'),
     ('post:every byte received was part of a line handed to the parser or a line separator - whatever the chunking; nothing is dropped, nothing is parsed twice', 'ensures',
-     'verif_exc != 0 || ghost_received == ghost_parsed + ghost_sep'),
+     'verif_exc != 0 || ghost_pending_bytes == 0'),
     ('post:exception class', 'ensures', 'verif_exc == 0 || verif_exc == EXC_opl_error'),
-    ('frame', 'assigns', 'verif_exc, verif_input_done, ghost_received, ghost_parsed, ghost_sep, ghost_lines')]},
+    ('frame', 'assigns', 'verif_exc, verif_input_done, ghost_pending_bytes, ghost_lines')]},
     loops={'line_by_line': [
-        ['__CPROVER_assigns(rest.size, verif_exc, verif_input_done, ghost_received, ghost_parsed, ghost_sep, ghost_lines)',
+        ['__CPROVER_assigns(rest.size, verif_exc, verif_input_done, ghost_pending_bytes, ghost_lines)',
          '__CPROVER_loop_invariant(verif_exc == 0 && (verif_input_done == 0 || verif_input_done == 1) && %s)' % ACC],   # the accounting holds modulo 2^64; no bound on the stream length is needed
-        ['__CPROVER_assigns(pos, ppos, verif_exc, ghost_parsed, ghost_sep, ghost_lines)',
-         '__CPROVER_loop_invariant(verif_exc == 0 && rest.size == 0 && ppos <= input.size && (pos == NPOS || (pos >= ppos && pos < input.size)) && ghost_parsed + ghost_sep + (input.size - ppos) == ghost_received)',
+        ['__CPROVER_assigns(pos, ppos, verif_exc, ghost_pending_bytes, ghost_lines)',
+         '__CPROVER_loop_invariant(verif_exc == 0 && rest.size == 0 && ppos <= input.size && (pos == NPOS || (pos >= ppos && pos < input.size)) && ghost_pending_bytes == input.size - ppos)',
          '__CPROVER_decreases(input.size - ppos)']]},
     replace=['W_get_input', 'verif_find_nl', 'W_parse_line'], maythrow={'W_parse_line': True}, enforce='line_by_line',
     harness='void harness(void) { Worker* w; line_by_line(w); __CPROVER_assert(verif_exc != 0, "canary:normal"); __CPROVER_assert(verif_exc == 0, "canary:throw"); }',
-    canaries=['canary:normal', 'canary:throw'], timeout=1200, replay=('c06_chunks', lambda cex, o: ['opl']), noflags=['--conversion-check'], object_bits=10, split=12,
+    canaries=['canary:normal', 'canary:throw'], timeout=1200, replay=('c06_chunks', lambda cex, o: ['opl']), noflags=['--conversion-check'], object_bits=10,
     note='strings by length, separators by an unconstrained find_first_of: every chunking and every placement of line ends; termination of the outer loop depends on the queue (not claimed)'))
 
 TRUSTED = ['std::string erase/append/data semantics (stubs/vstr_epoch.h)', 'get_input()/input_done() hand over the stream in arbitrary chunks followed by one end marker (queue protocol)']
 ASSUMPTIONS = ['input streams of at most 100000 bytes (object-size bound; the loop contract makes the proof independent of it)']
-NOT_DECIDED = ['XML (carry-over lives inside expat)', 'OPL line splitting', 'the PBF blob header size/type decoding between the queue operations', 'decompressor to parser hand-off (threads)', 'callers that ignore the return value of ensure_bytes_available']
+NOT_DECIDED = ['XML (carry-over lives inside expat)', 'OPL input with NUL bytes (the splitter skips a line that starts with one)', 'the PBF blob header size/type decoding between the queue operations', 'decompressor to parser hand-off (threads)', 'callers that ignore the return value of ensure_bytes_available']
 LEVEL_TEXT = ('Proof for the o5m carry-over: O5mParser::ensure_bytes_available is verified, for every stream up to 100000 bytes, every segmentation into chunks and every parser position, '
               'to leave valid window pointers on every return, to show the stream at the logically consumed position regardless of the chunking, to consume nothing, and to report "not enough bytes" '
               'only when the stream really ends (refill loop closed by a loop contract with termination). Proof for the PBF input queue (queue mode): ensure_available_in_input_queue appends every chunk it is given, in '
               'order, consumes nothing and gives up (pbf_error) only when the stream really has fewer bytes left; pop_from_input_queue consumes exactly the requested bytes; read_from_input_queue_with_check hands on '
-              'exactly the next size bytes of the stream and consumes exactly those, for every chunking.')
-LEVEL_NOTE = ('Trusted: CBMC, extraction rules, the std::string model with ghost epochs, the get_input/input_done protocol. The o5m refill and the PBF input queue are decided; XML (expat), OPL line splitting and '
+              'exactly the next size bytes of the stream and consumes exactly those, for every chunking. Proof for the OPL line splitter line_by_line(): for every chunking and every placement of line ends, '
+              'every byte received is part of a line handed to parse_line or a line separator (nothing dropped, nothing parsed twice), and the loop stops only at the end marker or with a parse error.')
+LEVEL_NOTE = ('Trusted: CBMC, extraction rules, the std::string model with ghost epochs, the get_input/input_done protocol. The o5m refill, the PBF input queue and the OPL line splitter are decided (strings by length, find_first_of unconstrained); XML (expat) and '
               'the thread hand-off are not.')
